@@ -302,6 +302,9 @@ def stepLine (s : DSt) (w : List String) : DSt × String :=
             let r := "eol=" ++ ",".intercalate (List.replicate (v.length + extra) "1")
             (s, s!"R {r} log=- | C {fmtCModel s.m} | I {fmtI s.m "0" 0 []} | S {r} log=- ; {fmtCSpec s.sp}")
         | _, _ => (s, "bad-op")
+      | ["e", "ctx"] =>
+        -- the dispatcher gets a fallback reply context of its own: nothing the property speaks of changes
+        (s, s!"R ok log=- | C {fmtCModel s.m} | I {fmtI s.m "0" 0 []} | S ok log=- ; {fmtCSpec s.sp}")
       | ["e", "rc", onoff] =>
         -- from now on the events carry (no longer carry) a reply context: nothing the property speaks of changes
         if onoff = "on" ∨ onoff = "off" then
